@@ -232,6 +232,7 @@ type World struct {
 	shutdownQ simrt.WaitQ
 	shutdown bool
 	joinQ    simrt.WaitQ
+	TeardownSeq uint64 // event sequence number at which the harness began to tear the world down
 	streamEvQ simrt.WaitQ // woken at every progress step of a stream (opened, message read / written on either end)
 	active   int
 	listenGen []*listenState
